@@ -32,6 +32,9 @@ var firingCombos = [][3]int{
 
 func genRegister(r *Rng, failing bool, marker bool) Step {
 	st := Step{Op: "register", A: r.Pick([]int{4, 3, 4, 3, 1}), B: r.Intn(6), C: r.Intn(4), D: r.Intn(3)}
+	if r.Chance(1, 8) {
+		st.E |= 16 // registered as an uncomparable value
+	}
 	if r.Chance(2, 3) {
 		c := firingCombos[r.Intn(len(firingCombos))]
 		st.A, st.C, st.D = c[0], c[1], c[2]
@@ -111,7 +114,7 @@ func (engC11) Gen(r *Rng, s *Script, idx int, tier string) {
 			case 0:
 				st = Step{Op: "ecNew", A: r.Intn(3)}
 			case 1:
-				st = Step{Op: "ecAdd", A: r.Intn(3), B: r.Pick([]int{4, 1})}
+				st = Step{Op: "ecAdd", A: r.Intn(3), B: r.Pick([]int{4, 1, 1})}
 			case 2:
 				st = Step{Op: "ecAddList", A: r.Intn(3), B: r.Pick([]int{6, 1, 1, 2, 1}), C: r.Intn(3)}
 				for j := r.Range(0, 5); j > 0; j-- {
@@ -185,7 +188,7 @@ func (engC11) Gen(r *Rng, s *Script, idx int, tier string) {
 			case 0, 1:
 				s.Steps = append(s.Steps, Step{Op: "rowError", A: r.Intn(3), B: r.Pick([]int{5, 1})})
 			case 2:
-				s.Steps = append(s.Steps, Step{Op: "tableError", B: r.Pick([]int{5, 1})})
+				s.Steps = append(s.Steps, Step{Op: "tableError", B: r.Pick([]int{5, 1, 1})})
 			default:
 				st := Step{Op: "tableErrList"}
 				for j := r.Range(0, 4); j > 0; j-- {
@@ -313,7 +316,7 @@ func (engC12) Gen(r *Rng, s *Script, idx int, tier string) {
 	m := drawBuildMix(r)
 	m.scramble, m.sepAdd = 0, 0
 	m.wide = r.Chance(1, 2)
-	nkeys := r.Range(2, 14)
+	nkeys := r.Range(2, 19)
 	buildW := r.Range(1, 5)
 	copyW := r.Range(0, 3)
 	if r.Chance(1, 10) {
@@ -334,12 +337,18 @@ func (engC12) Gen(r *Rng, s *Script, idx int, tier string) {
 			s.Steps = append(s.Steps, genRenderStep(r, 0), Step{Op: "render", A: FmtMD, C: ViaFresh})
 		}
 		nk := r.Range(6, 14)
+		base := 0
+		if r.Chance(1, 4) {
+			nk, base = []int{17, 33, 65, 70, 130}[r.Intn(5)], 100 // beyond any small fixed-size structure
+			s.Config["many_keys"] = nk
+		}
 		for k := 0; k < nk; k++ {
-			s.Steps = append(s.Steps, Step{Op: "setProp", A: 0, C: k, D: 1})
+			s.Steps = append(s.Steps, Step{Op: "setProp", A: 0, C: base + k, D: 1})
 		}
 		s.Steps = append(s.Steps, Step{Op: "copyCell", A: 0, B: r.Intn(3)})
 		for k := r.Range(2, 6); k > 0; k-- {
-			s.Steps = append(s.Steps, Step{Op: "setProp", A: r.Intn(2), C: r.Intn(nk), D: r.Pick([]int{1, 1})})
+			// the oldest keys are the interesting ones when there are many
+			s.Steps = append(s.Steps, Step{Op: "setProp", A: r.Intn(2), C: base + r.Intn(1+nk/8), D: r.Pick([]int{1, 1})})
 		}
 		nkeys = 14
 	}
@@ -514,6 +523,36 @@ func (engC13) Gen(r *Rng, s *Script, idx int, tier string) {
 	for k := 0; k < nreg; k++ {
 		regAt[r.Intn(n)] = true
 	}
+	if r.Chance(1, 10) {
+		// k registrations on one cell, the cell copied by value, one more on each side
+		s.Config["callback_list_aliasing_scenario"] = 1
+		s.Steps = append(s.Steps, Step{Op: "rowItems", Items: genItems(r, 1, 0, &ctr)})
+		uncomparable := 0
+		if r.Chance(1, 3) {
+			uncomparable = 16
+		}
+		for k := []int{1, 2, 3, 3, 5, 6, 7, 9, 11}[r.Intn(9)]; k > 0; k-- {
+			s.Steps = append(s.Steps, Step{Op: "register", A: ownCell, B: 0, C: 2, D: r.Intn(2), E: 1 | uncomparable})
+		}
+		s.Steps = append(s.Steps, Step{Op: "copyCell", A: 0, B: r.Intn(3)})
+		s.Steps = append(s.Steps, Step{Op: "register", A: ownCell, B: 0, C: 2, D: 0, E: 1})
+		s.Steps = append(s.Steps, Step{Op: "register", A: ownCellValue, B: 0, C: 2, D: 0, E: 1})
+		s.Steps = append(s.Steps, Step{Op: "addCopy", A: 0, B: 0}, Step{Op: "invokeRC"})
+	}
+	if r.Chance(1, 40) {
+		// a row wider than a byte can count, with callbacks on columns around the boundary
+		s.Config["wide_row_scenario"] = 1
+		wide := make([]Item, 258)
+		for i := range wide {
+			ctr++
+			wide[i] = Item{K: "i", N: 5000 + ctr}
+		}
+		s.Steps = append(s.Steps, Step{Op: "rowItems", Items: wide})
+		for _, col := range []int{1, 255, 256, 257} {
+			s.Steps = append(s.Steps, Step{Op: "register", A: ownColumn, B: col, C: 1 + 2*r.Intn(2), D: 1, E: 1})
+		}
+		s.Steps = append(s.Steps, Step{Op: "invokeRC"})
+	}
 	byValue := r.Chance(1, 4) // cell-owned callbacks travelling with by-value copies of a cell
 	kept := -1                // render passes through one wrapper the caller keeps
 	if r.Chance(1, 3) {
@@ -545,6 +584,9 @@ func (engC13) Gen(r *Rng, s *Script, idx int, tier string) {
 			s.Steps = append(s.Steps, genRegister(r, failing, true))
 			if same && len(s.Steps) > 0 {
 				// a second registration in the very same list as the first
+				if r.Chance(1, 2) {
+					s.Steps[len(s.Steps)-1].E |= 16 // ... both as uncomparable values
+				}
 				dup := s.Steps[len(s.Steps)-1]
 				dup.Plan = nil
 				s.Steps = append(s.Steps, dup)
@@ -583,7 +625,7 @@ func (engC13) Exec(s *Script, keepLog bool) *Result {
 		if st.Op == "render" {
 			ro := w.ApplyRender(st)
 			if ro.Panic != nil {
-				return renderPanic("C13", ro, "render_callbacks.go")
+				return renderPanic("C13", ro, "render_callbacks.go", "properties.go:tabular.invokePropertyCallbacks")
 			}
 			passes++
 		} else {
